@@ -48,7 +48,12 @@ theorem np_rByte (b : Bytes) : NP (rByte b) := by
 theorem np_go : ∀ (b : Bytes) (i x s : Nat), NP (readUvarintGo.go b i x s) := by
   intro b
   induction b with
-  | nil => intro i x s; simp only [readUvarintGo.go]; split <;> exact NP.err _
+  | nil =>
+    intro i x s
+    simp only [readUvarintGo.go]
+    split
+    · exact NP.err _
+    · split <;> exact NP.err _
   | cons c rest ih =>
     intro i x s
     simp only [readUvarintGo.go]
